@@ -67,6 +67,7 @@ def PARAM_LOOPS(header, body):
         return inv + "decreases params@.len() - __pi,"
     if "__zi <" in header:
         return ("invariant __zi <= params@.len(), new_params@.len() == __zi, forall|i: int| 0 <= i < __zi ==> (#[trigger] new_params@[i]).0 == env.0@[i].1,\n"
+                "  forall|i: int| 0 <= i < __zi ==> import_checked((#[trigger] new_params@[i]).1),\n"
                 "decreases params@.len() - __zi,")
     if "__mi0 <" in header:
         return ("invariant __mi0 <= params@.len(), __mo0@.len() == __mi0, env.0@.len() == params@.len(), forall|i: int| 0 <= i < params@.len() ==> (#[trigger] env.0@[i]).0 == params@[i].0,\n"
@@ -78,7 +79,7 @@ UNIT = Unit(
     name="U-SCOPE",
     properties=["C05", "C16"],
     # the let-annotation clause (the annotation is lowered by the import-checking lowering) is C16's; everything else is C05's
-    clause_scope={"C16": {"only": ["let_annotation_import_checked("]}, "C05": {"except": ["let_annotation_import_checked("]}},
+    clause_scope={"C16": {"only": ["let_annotation_import_checked(", "params_import_checked("]}, "C05": {"except": ["let_annotation_import_checked(", "params_import_checked("]}},
     rules=["attrs", "iter_map_collect"],
     describe="name resolution's scoping: ResolveLocalEnv (new / enter_scope / add) and the six scoping-relevant arms of "
              "NameResolution::resolve_expr (block, match, closure, let, if, while) and six pass-through arms (unary, binary, projection, tuple, array, go) against the rule `leak`: a `let` leaves exactly its "
@@ -214,9 +215,10 @@ UNIT = Unit(
            ],
            rewrites=[(re.compile(r"let mut (\w+) = Vec::with_capacity\(params\.len\(\)\);"), r"let mut \1: Vec<hir::LocalId> = Vec::new();", "*"),
                      (re.compile(r"self\.fresh_name\(&param\.0\.0, hir_table\)"), "self.fresh_name(string_as_str(&param.0.0), hir_table)", "*"),
-                     (re.compile(r"let new_params = \{ let mut __mo0 = Vec::new\(\);"), "let new_params = { let mut __mo0: Vec<(hir::LocalId, hir::TypeExpr)> = Vec::new();", "*")],
+                     (re.compile(r"let new_params = \{ let mut __mo0 = Vec::new\(\);"), "let new_params = { let mut __mo0: Vec<(hir::LocalId, hir::TypeExpr)> = Vec::new();", "*"),
+                     (re.compile(r"\(&(\w+(?:\.\w+)*)\)\.into\(\)"), r"type_expr_into(&\1)", "*")],
            obligation="every parameter gets a binder of its own (a fresh id, also when two parameters share a name) and is entered into the environment in order",
-           contract="ensures params_bound(params@, r.0.0@, r.1@),",
+           contract="ensures params_bound(params@, r.0.0@, r.1@), params_import_checked(r.1@),",
            loop_fn=lambda k, header, kw, body: PARAM_LOOPS(header, body)),
         Fn(file=N, name="resolve_pat", container=NR, as_method_of=NR, rename="resolve_ident_pat", ret="r",
            cut_from="ast::Pat::PVar { name, astptr } => {", cut_inside=True, cut_before="@block-end", cut_tail="",
